@@ -227,11 +227,13 @@ pub struct SendSide {
     // DataCap progress
     pub cap_left: Option<usize>,
     pub yielded: bool,
+    /// the SendStream was handed to the inline registry (C20): it is not dropped when this task ends
+    pub parked: bool,
 }
 
 impl SendSide {
     pub fn new(ops: Vec<SendOp>, tag: u32) -> SendSide {
-        SendSide { stream: None, ops, pc: 0, tag, sent: 0, blocked: None, waitq: None, cap_left: None, yielded: false }
+        SendSide { stream: None, ops, pc: 0, tag, sent: 0, blocked: None, waitq: None, cap_left: None, yielded: false, parked: false }
     }
 
     fn sid(&self) -> u32 {
@@ -324,6 +326,20 @@ impl SendSide {
                     if self.stream.is_some() {
                         self.stream = None;
                         api.ev("drop_send", sid, tag, "ok", json!({}));
+                    }
+                    self.pc = self.ops.len();
+                    return TP::Done;
+                }
+                SendOp::Park => {
+                    // C20: the handle moves to the inline registry; this task is done (no drop event: the handle lives on)
+                    if let Some(stream) = self.stream.take() {
+                        {
+                            let mut g = api.w.lock().unwrap();
+                            g.parked_send.insert((api.ep, tag), ParkedSend { stream, sent: self.sent });
+                            g.parked_send_ever.insert((api.ep, tag));
+                        }
+                        api.ev("park_send", sid, tag, "ok", json!({}));
+                        self.parked = true;
                     }
                     self.pc = self.ops.len();
                     return TP::Done;
@@ -578,6 +594,17 @@ impl Task for BodyReader {
                         if self.rs.take().is_some() {
                             api.ev("drop_recv", sid, tag, "ok", json!({}));
                         }
+                    }
+                    RecvOp::Park => {
+                        if let Some(rs) = self.rs.take() {
+                            {
+                                let mut g = sim.w.lock().unwrap();
+                                g.parked_recv.insert((self.ep, tag), ParkedRecv { rs, off: self.off });
+                                g.parked_recv_ever.insert((self.ep, tag));
+                            }
+                            api.ev("park_recv", sid, tag, "ok", json!({}));
+                        }
+                        return TP::Done;
                     }
                     RecvOp::Release { n } => {
                         if let Some(rs) = self.rs.as_mut() {
@@ -887,6 +914,9 @@ impl Task for ClientConn {
                     }
                     Poll::Ready(Ok((sr, conn))) => {
                         api.ev("handshake", 0, 0, "ok", json!({}));
+                        if sim.scn.inline.iter().any(|s| matches!(s.act, InlineAct::SendRequest { .. })) {
+                            sim.w.lock().unwrap().inline_sr = Some(sr.clone());
+                        }
                         sim.reg.sr = Some(sr);
                         self.st = CState::Running(conn);
                     }
@@ -1515,7 +1545,9 @@ impl Task for SrvWriter {
             let sid = self.resp.as_ref().map(|r| r.stream_id().as_u32()).unwrap_or(0);
             self.side.stream = None;
             self.resp = None;
-            api.ev("drop_send", sid, self.tag, "ok", json!({}));
+            if !self.side.parked {
+                api.ev("drop_send", sid, self.tag, "ok", json!({}));
+            }
         }
         r
     }
